@@ -18,27 +18,42 @@ use task::CRefWaker;
 struct Slot {
     refs: AtomicI64,
     wakes: AtomicU64,
+    /// lowest value the count may reach: 1 while the caller keeps its own handle for the whole run, 0 in the
+    /// scenarios where the caller drops it concurrently
+    floor: i64,
+    released: AtomicU64,
+}
+
+fn touch(s: &Slot, what: &str) {
+    assert!(s.released.load(SeqCst) == 0, "{} on the caller's waker after its last reference had been released", what);
 }
 
 fn dec(s: &Slot) {
+    touch(s, "release");
     let now = s.refs.fetch_sub(1, SeqCst) - 1;
-    assert!(now >= 1, "the caller's waker was released more often than it was cloned (refcount {} while the caller still holds its own handle)", now);
+    assert!(now >= s.floor, "the caller's waker was released more often than it was cloned (refcount {}, lowest legal value {})", now, s.floor);
+    if now == 0 {
+        s.released.store(1, SeqCst);
+    }
 }
 
 static VT: RawWakerVTable = RawWakerVTable::new(
     |p| {
         let s = unsafe { &*(p as *const Slot) };
+        touch(s, "clone");
         let before = s.refs.fetch_add(1, SeqCst);
         assert!(before >= 1, "clone of a released waker");
         RawWaker::new(p, &VT)
     },
     |p| {
         let s = unsafe { &*(p as *const Slot) };
+        touch(s, "wake");
         s.wakes.fetch_add(1, SeqCst);
         dec(s);
     },
     |p| {
         let s = unsafe { &*(p as *const Slot) };
+        touch(s, "wake_by_ref");
         assert!(s.refs.load(SeqCst) >= 1, "wake_by_ref on a released waker");
         s.wakes.fetch_add(1, SeqCst);
     },
@@ -109,15 +124,23 @@ const SCENARIOS: &[(&str, bool, &[Act])] = &[
     ("separate_three", false, &[Act::Drop, Act::CloneDropWake, Act::WakeByRefDrop]),
 ];
 
+/// scenario index space: i < N as listed; i >= N = scenario i - N in which the caller drops its own waker
+/// concurrently with the workers (a detached task: it lives on through the wakers it handed out)
+fn scenario_name(idx: usize) -> String {
+    let n = SCENARIOS.len();
+    if idx < n { SCENARIOS[idx].0.to_string() } else { format!("{}_caller_drops", SCENARIOS[idx - n].0) }
+}
+
 fn run_scenario(idx: usize, bound: Option<usize>) -> u64 {
-    let (_n, family, acts) = SCENARIOS[idx];
+    let caller_drops = idx >= SCENARIOS.len();
+    let (_n, family, acts) = SCENARIOS[idx % SCENARIOS.len()];
     let iters = std::sync::Arc::new(std::sync::atomic::AtomicU64::new(0));
     let it2 = iters.clone();
     let mut b = loom::model::Builder::new();
     b.preemption_bound = bound;
     b.check(move || {
         it2.fetch_add(1, std::sync::atomic::Ordering::Relaxed);
-        let slot: &'static Slot = Box::leak(Box::new(Slot { refs: AtomicI64::new(1), wakes: AtomicU64::new(0) }));
+        let slot: &'static Slot = Box::leak(Box::new(Slot { refs: AtomicI64::new(1), wakes: AtomicU64::new(0), floor: if caller_drops { 0 } else { 1 }, released: AtomicU64::new(0) }));
         let caller = unsafe { Waker::from_raw(RawWaker::new(slot as *const Slot as *const (), &VT)) };
         let cref = CRefWaker::from(&caller);
         // inside the "poll": obtain the foreign-side wakers
@@ -135,12 +158,20 @@ fn run_scenario(idx: usize, bound: Option<usize>) -> u64 {
         for (a, w) in acts.iter().copied().zip(handed) {
             joins.push(loom::thread::spawn(move || act(a, w)));
         }
+        let mut caller = Some(caller);
+        if caller_drops {
+            drop(caller.take());
+        }
         let mut wake_ops = 0;
         for j in joins {
             wake_ops += j.join().unwrap();
         }
         assert_eq!(slot.wakes.load(SeqCst), wake_ops, "caller woken a different number of times than wake operations were performed");
-        assert_eq!(slot.refs.load(SeqCst), 1, "after all foreign-side wakers are gone the caller's refcount must be back at its start value");
+        if caller_drops {
+            assert_eq!(slot.refs.load(SeqCst), 0, "the caller dropped its own waker: after all foreign-side wakers are gone nothing may hold it any more");
+        } else {
+            assert_eq!(slot.refs.load(SeqCst), 1, "after all foreign-side wakers are gone the caller's refcount must be back at its start value");
+        }
         // the caller's own handle: not dropped through the vtable (dec() asserts that the count stays >= 1
         // for as long as the caller holds it)
         std::mem::forget(caller);
@@ -173,9 +204,11 @@ fn main() {
                 Tier::Quick => Some(3),
                 Tier::Thorough => None,
             };
-            cx.rule("loom", &format!("every interleaving (loom DPOR, preemption bound {:?}; None = unbounded) of 2-3 threads, each running a fixed list of clone/wake/wake_by_ref/drop on a foreign-side waker obtained inside one with_waker call — wakers of one family (sharing one CRawWaker) and separate clones — over the real task/mod.rs compiled against a loom-backed tarc::BaseArc; oracle: caller's refcount never below 1, woken once per wake operation, refcount back to 1 at the end; evaluations = schedules", bound));
+            cx.rule("loom", &format!("every interleaving (loom DPOR, preemption bound {:?}; None = unbounded) of 2-3 threads, each running a fixed list of clone/wake/wake_by_ref/drop on a foreign-side waker obtained inside one with_waker call — wakers of one family (sharing one CRawWaker) and separate clones — over the real task/mod.rs compiled against a loom-backed tarc::BaseArc; every scenario also with the caller dropping its own waker concurrently; oracle: caller's refcount never below 1 (0 when the caller drops), never touched after its last release, woken once per wake operation, refcount back to 1 (0) at the end; evaluations = schedules", bound));
             let mut total = 0;
-            for (i, (name, fam, acts)) in SCENARIOS.iter().enumerate() {
+            for i in 0..2 * SCENARIOS.len() {
+                let name = &scenario_name(i);
+                let (_, fam, acts) = &SCENARIOS[i % SCENARIOS.len()];
                 let case = json!({"scenario": name, "index": i, "same_family": fam, "threads": format!("{:?}", acts), "preemption_bound": bound});
                 let (ok, iters, msg) = child_run(i, bound);
                 total += iters;
@@ -193,7 +226,7 @@ fn main() {
             if ok {
                 CaseOut::ok(iters)
             } else {
-                CaseOut::bad(format!("loom:{}", SCENARIOS[i].0), msg)
+                CaseOut::bad(format!("loom:{}", scenario_name(i)), msg)
             }
         }),
     }];
